@@ -907,6 +907,12 @@ func run(t *testing.T, sp spec) (outcome string, fail *failure, leak string) {
 		default:
 			h.harness("unknown family %q", sp.Fam)
 		}
+		// A black-holed dial keeps Open (and lifeMu) busy until the connect timeout; a Close
+		// queued behind that mutex is not a durable block, so virtual time would never advance:
+		// let the dial time out before the cleanup closes the connection.
+		for i := 0; h.opening != nil && !h.opening.Done() && i < 4; i++ {
+			w.Advance(tDial)
+		}
 		if h.fail == nil {
 			if err := w.ParserErr(); err != nil {
 				h.bad("framing", "the library wrote a malformed frame: %v", err)
